@@ -48,7 +48,14 @@ def wire(rng, classes, u, v, position, counter):
     elif position == "tuple-items":
         U.properties[key] = Property(Array([Element(), V]))
     elif position == "additionalItems":
-        U.properties[key] = Property(Element(items=[Element()], additionalItems=V))
+        # beside tuple items, beside a single item schema, and on its own (the keyword is held and printed in all three)
+        form = counter % 3
+        if form == 0:
+            U.properties[key] = Property(Element(items=[Element()], additionalItems=V))
+        elif form == 1:
+            U.properties[key] = Property(Array(Element(), additionalItems=V))
+        else:
+            U.properties[key] = Property(Element(additionalItems=V))
     elif position == "contains":
         U.properties[key] = Property(Element(contains=V))
     elif position == "patternProperties":
